@@ -21,7 +21,7 @@ import sys
 import threading
 
 from .. import decode as dec
-from ..boot import SIM, rearm_watchdog, set_capacity
+from ..boot import SIM, clear_kernel_cache, rearm_watchdog, set_capacity
 
 NAME = "S"
 WATCHDOG_S = 60
@@ -292,7 +292,7 @@ def _ensure_capacity(c):
         from tensora.compile import _porcelain
 
         set_capacity(c)
-        _porcelain.cachable_tensor_method.cache_clear()
+        clear_kernel_cache()
         _state["capacity"] = c
         _state["warm"] = False
 
@@ -997,7 +997,8 @@ class Run:
             elif kind == "cache_clear":
                 from tensora.compile import _porcelain
 
-                _porcelain.cachable_tensor_method.cache_clear()
+                if not clear_kernel_cache():
+                    self.probe("cache_clear_unavailable")
                 self.probe("kernel_cache_cleared_while_results_alive"
                            if any(m.logical[l]["blocks"] for _, l in m.names.values())
                            else "kernel_cache_cleared")
